@@ -41,3 +41,58 @@ Proof.
   split; [exact Hs|]. intros r' H'. exact (peg_item_det K rs toks kw soft _ _ _ _ _ _ H' _ Hs).
 Qed.
 Print Assumptions C01_evaluator_sound.
+
+(* COMPILATION CORRECTNESS, first fragment as a theorem (end of the third session; Proofs/FlatSem.v).
+   For every IR module of the fragment ([flat_module]: decidable -- every alternative is a sequence of calls of rule
+   methods, token primitives and expect(), each possibly under ONE wrapper: optional `(x := c,)`, positive / negative
+   lookahead, forced item, or a cut; value-carrying calls bound to pairwise distinct names; the default action; no
+   guard, no LOCATIONS, no loops; methods decorated @memoize), read back as a grammar ([dec_module]), and for the
+   interpreter with the cache off and tracing off: WHENEVER a method returns -- with a truthy value, or with a failure
+   -- the reference semantics of Sem/Peg.v derives exactly that for the grammar read back: success with the SAME value
+   and the SAME end position, or failure (and then the value is None and the position is where it was).  By
+   C01_reference_semantics_deterministic that is THE answer the semantics prescribes.  (What is not covered: runs that
+   raise -- StopIteration at the end of the token list, a forced item -- or run out of fuel.)  Every token list, every
+   state, every amount of fuel.  The hypotheses concern the environment only: the action interpreter evaluates the
+   default action text (a name, or a list display of names) as Python does, and on the given token list expect() matches
+   literals by their text and token kinds by their kind (the conflation recorded in the C11 findings is excluded).
+   With C04_cache_transparent the statement carries over to cached runs of modules without left-recursive leaders.
+   After the generator has moved groups, repetitions and gathers into helper rules, this fragment is the shape of every
+   alternative of a generated parser that has no explicit action; loops and gathers are the next step. *)
+From Pegen Require Import Gen.Gen Runtime.Exec Proofs.FlatSem.
+Theorem C01_interpreter_implements_the_reference_semantics_on_flat_modules :
+  forall K toks M aeval exact_types token_dict aevalP item_name forced_msg,
+  flat_module M = true ->
+  (forall xs e vs, nodup_s xs = true -> Forall2 (fun x v => env_get e x = Some v) xs vs ->
+     aeval (default_text xs) e = Some (match vs with [v] => v | _ => VList vs end)) ->
+  (forall s t, In t toks -> is_kind2 s = false -> expect_test K exact_types token_dict s t = String.eqb (tstr t) s) ->
+  (forall s t, In t toks -> is_kind2 s = true -> expect_test K exact_types token_dict s t = kind2_test K M s t) ->
+  forall fuel n st v st', find_meth M n <> None ->
+  run K toks false false M aeval exact_types token_dict fuel n st = (Ok v, st') ->
+  exists res, peg_item K (dec_module M) toks (i_keywords M) (i_soft_keywords M) aevalP item_name forced_msg (NameLeaf n) (pos st) res /\
+              ((truthy v = true /\ res = PSucc v (pos st')) \/ (v = VNone /\ res = PFail /\ pos st' = pos st)).
+Proof. exact flat_run_agrees. Qed.
+Print Assumptions C01_interpreter_implements_the_reference_semantics_on_flat_modules.
+
+(* Non-vacuity: the module the generator model emits for a grammar with an optional, a lookahead, a cut, a forced
+   item and rule references IS in the fragment, and reads back as that grammar. *)
+From Pegen Require Import Analysis.Nullable.
+Definition ni01 (k : N) (nm : option string) (i : item) := NItem k nm None i.
+Definition g01 : grammar :=
+  {| rules :=
+       [{| rname := "start"; rtype := None; rmemo := false;
+           rrhs := Rhs 1 [Alt [ni01 2 None (NameLeaf "stmt"); ni01 3 None (NameLeaf "NEWLINE")] None] |};
+        {| rname := "stmt"; rtype := None; rmemo := false;
+           rrhs := Rhs 4 [Alt [ni01 5 None (StringLeaf "'if'"); ni01 6 None Cut; ni01 7 None (NameLeaf "NAME"); ni01 8 None (Forced (StringLeaf "':'"))] None;
+                          Alt [ni01 9 None (PosLook (NameLeaf "NAME")); ni01 10 None (NameLeaf "expr"); ni01 11 None (Opt (StringLeaf "';'"))] None] |};
+        {| rname := "expr"; rtype := None; rmemo := false;
+           rrhs := Rhs 12 [Alt [ni01 13 None (NameLeaf "NAME"); ni01 14 None (NegLook (StringLeaf "'='")); ni01 15 None (NameLeaf "NUMBER")] None;
+                           Alt [ni01 16 None (NameLeaf "NAME")] None] |}];
+     metas := [] |}.
+Example C01_flat_example :
+  match generate [] [] "" "" "g" 100 g01 {| a_nullable := []; a_item_nullable := [11%N]; a_graph := []; a_left_rec := []; a_leaders := [] |} with
+  | inl M => flat_module M = true /\
+             map (fun r => (rname r, List.length (rhs_alts (rrhs r)))) (dec_module M) = [("start", 1); ("stmt", 2); ("expr", 2)]
+  | inr _ => False
+  end.
+Proof. vm_compute. split; reflexivity. Qed.
+Print Assumptions C01_flat_example.
